@@ -185,13 +185,24 @@ static void idleChecks() {
     if (m->pendingOnWrite) fail("Server.Client.onWrite/missing-after-drain", "client %d: the backlog drained but onWrite was not called before the loop blocks", m->id);
     if (m->expectClosed && !m->closedSeen) fail("Server.Client.onClosed/missing-after-failure", "client %d: a send/recv failed but the loop is about to block without having called onClosed", m->id);
     checkBacklogValue(m, "idle");
-    if (!m->backlogDropped && m->backlog() > 0 && m->S == m->peerGot)
-      fail(m->suspended ? "Server.Client.write/suspended/backlog-stalled" : "Server.Client.write/backlog-stalled", "client %d: %llu accepted byte(s) are still queued, the socket is writable (nothing in flight) and the loop is about to block: write readiness is not requested",
-           m->id, (unsigned long long)m->backlog());
+    // readiness is judged by an independent poll() on the fd; the violation is the library's registration as observed at the epoll_ctl boundary
+    // (a properly registered fd that poll() and epoll_wait(0) disagree about would be a kernel matter: inconclusive)
+    unsigned mask = ns::epollMask(m->fd);
+    if (!m->backlogDropped && m->backlog() > 0 && m->S == m->peerGot) {
+      int re = su::pollNow(m->fd, POLLOUT);
+      cnt("independent_poll_checks");
+      if (!re) harnessBug("client %d: nothing in flight but the socket is not writable", m->id);
+      if (mask != 0xffffffffu && (mask & EPOLLOUT)) harnessBug("client %d: fd %d writable and registered with mask 0x%x, yet epoll_wait(0) returned nothing", m->id, m->fd, mask);
+      fail(m->suspended ? "Server.Client.write/suspended/backlog-stalled" : "Server.Client.write/backlog-stalled", "client %d: %llu accepted byte(s) are still queued, the socket is writable (nothing in flight, poll() 0x%x), write readiness is not requested (epoll mask %s0x%x) and the loop is about to block",
+           m->id, (unsigned long long)m->backlog(), re, mask == 0xffffffffu ? "absent " : "", mask);
+    }
     if (!m->suspended && !m->closedSeen) {
       int re = su::pollNow(m->fd, POLLIN | POLLRDHUP | POLLHUP);
       cnt("independent_poll_checks");
-      if (re) fail("Server.Client.onRead/readable-not-dispatched", "client %d is not suspended and poll() reports 0x%x on its socket, but the loop's poll set reports nothing and is about to block", m->id, re);
+      if (re) {
+        if (mask != 0xffffffffu && (mask & EPOLLIN)) harnessBug("client %d: fd %d readable (0x%x) and registered with mask 0x%x, yet epoll_wait(0) returned nothing", m->id, m->fd, re, mask);
+        fail("Server.Client.onRead/readable-not-dispatched", "client %d is not suspended and poll() reports 0x%x on its socket, but read readiness is not requested (epoll mask %s0x%x) and the loop is about to block", m->id, re, mask == 0xffffffffu ? "absent " : "", mask);
+      }
     }
   }
 }
